@@ -468,6 +468,12 @@ class ContractMixin:
             if upcast:
                 extra["result"] = SRef(payload.t, want)
                 payload = extra["result"]
+            if isinstance(payload, SOptRef) and want == payload.inner:
+                # an Optional local returned where the contract promises an object: it must not be None here
+                self.oblige(s, "type", "result-not-none", payload.t != 0, f"returns {payload.kind}, contract says {want}", props=c.props)
+                s.assume(payload.t != 0)
+                extra["result"] = SRef(payload.t, want)
+                payload = extra["result"]
             if want != "any" and payload.kind != want and not upcast and not (want.startswith("optref:") and (isinstance(payload, SNone) or payload.kind == want[7:])):
                 # a result of another static kind than the contract declares
                 if not (want == "any"):
